@@ -91,6 +91,60 @@ def _ends_in_raise(stmts) -> bool:
     return False
 
 
+def _unmatched_samples(repo):
+    """(module, qualname) -> thunk interpreting the dispatcher on an input none of its cases matches.
+
+    The thunk returns "raised" or ("returned", value); an AnalysisError means the dispatcher cannot be interpreted on the sample and the
+    structural verdict stands."""
+    from ..absint import Interp, Node, Raised, _PyCall
+    from ..lnodes_model import load_classes
+    from ..npmodel import install
+
+    def run(modname, q, args, prep=None, kwargs=None):
+        def thunk():
+            it = install(Interp(repo, load_classes(repo), primary=modname))
+            it.overrides["logger"] = Node("Logger", info=_PyCall(lambda *a: None), debug=_PyCall(lambda *a: None), exception=_PyCall(lambda *a: None),
+                                          warning=_PyCall(lambda *a: None))
+            a = args(it) if callable(args) else list(args)
+            if prep:
+                prep(it)
+            try:
+                v = it.call_f(repo.mod(modname).func(q), a, kwargs)
+            except Raised:
+                return "raised"
+            return ("returned", v)
+        return thunk
+
+    unknown = lambda: Node("UnknownTerminalKind", name="t")  # noqa: E731
+    mt = lambda: Node("ModifiedTerminal", terminal=unknown(), restriction=None)  # noqa: E731
+
+    def ufl_measures(it):
+        it.overrides["ufl.measure.facet_integral_types"] = ("exterior_facet", "interior_facet")
+        it.overrides["ufl.measure.ridge_integral_types"] = ("ridge",)
+        it.overrides["ufl.measure.point_integral_types"] = ("vertex",)
+        it.overrides["ufl.custom_integral_types"] = ("cutcell", "interface", "overlap", "custom")
+        it.overrides["ufl.measure.custom_integral_types"] = ("cutcell", "interface", "overlap", "custom")
+
+    S = {
+        ("ffcx.codegeneration.geometry", "write_table"): run("ffcx.codegeneration.geometry", "write_table", ["no_such_table", "triangle"]),
+        ("ffcx.codegeneration.access", "FFCXBackendAccess.get"): run(
+            "ffcx.codegeneration.access", "FFCXBackendAccess.get", lambda it: [Node("FFCXBackendAccess", call_lookup={}), mt(), None, None]),
+        ("ffcx.codegeneration.definitions", "FFCXBackendDefinitions.get"): run(
+            "ffcx.codegeneration.definitions", "FFCXBackendDefinitions.get", lambda it: [Node("FFCXBackendDefinitions", handler_lookup={}), mt(), None, None, None]),
+        ("ffcx.codegeneration.utils", "dtype_to_c_type"): run("ffcx.codegeneration.utils", "dtype_to_c_type", ["uint8"]),
+        ("ffcx.ir.representationutils", "integral_type_to_entity_dim"): run("ffcx.ir.representationutils", "integral_type_to_entity_dim", ["no_such_type", 2], ufl_measures),
+        ("ffcx.ir.representationutils", "map_integral_points"): run(
+            "ffcx.ir.representationutils", "map_integral_points", lambda it: [[[0.5]], "no_such_type", Node("Cell", cellname="triangle", topological_dimension=2), 0],
+            ufl_measures),
+        ("ffcx.ir.integral", "TensorPart.from_str"): run("ffcx.ir.integral", "TensorPart.from_str", lambda it: [it.resolve_enum("TensorPart"), "no_such_part"]),
+        ("ffcx.codegeneration.integral_generator", "extract_dtype"): run(
+            "ffcx.codegeneration.integral_generator", "extract_dtype", lambda it: [Node("UflExpr", name="v"), ["not an LNodes operand"]]),
+        ("ffcx.codegeneration.optimizer", "check_dependency"): run(
+            "ffcx.codegeneration.optimizer", "check_dependency", lambda it: [it.construct("Comment", ["x"], {}), it.construct("Symbol", ["i", "DataType.INT"], {})]),
+    }
+    return S
+
+
 @rule(
     "FAIL-CLOSED",
     ["C19", "C01", "C09"],
@@ -102,12 +156,36 @@ def _ends_in_raise(stmts) -> bool:
     min_instances=24,
 )
 def fail_closed(repo, res):
+    from ..model import AnalysisError as _AE
+
+    samples = _unmatched_samples(repo)
+
+    def semantic(modname, q):
+        """True: raises on the unmatched sample; a string: what it returned instead; None: not decidable by interpretation."""
+        th = samples.get((modname, q))
+        if th is None:
+            return None
+        try:
+            r = th()
+        except _AE:
+            return None
+        if r == "raised":
+            return True
+        return f"returns {r[1]!r}"
+
     for modname, q in DISPATCH_A:
         m = repo.mod(modname)
         f = m.func(q)
         res.functions.add(f.key)
         key = f"{f.key}:default-raises"
         res.ob(key)
+        sem = semantic(modname, q)
+        if sem is True:
+            continue  # interpreted on an input no case matches: it raises, whatever the shape of the code
+        if isinstance(sem, str):
+            res.fail(key, f"the unmatched case of {f.key} does not raise: on an input none of its cases handles it {sem}, i.e. an unsupported construct is "
+                     "silently translated instead of being rejected", m.line(f.node))
+            continue
         body = [s for s in f.node.body if not (isinstance(s, ast.Expr) and isinstance(s.value, ast.Constant))]
         if not _ends_in_raise(body):
             res.fail(key, f"the unmatched case of {f.key} does not raise: an unsupported construct is silently "
@@ -127,6 +205,12 @@ def fail_closed(repo, res):
         res.functions.add(f.key)
         key = f"{f.key}:none-check-raises"
         res.ob(key)
+        sem = semantic(modname, q)
+        if sem is True:
+            continue
+        if isinstance(sem, str):
+            res.fail(key, f"{f.key}: a failed lookup is not rejected with an exception: on an unknown input it {sem}", m.line(f.node))
+            continue
         ok = False
         for n in walk_no_nested(f.node):
             if isinstance(n, ast.If):
@@ -141,6 +225,12 @@ def fail_closed(repo, res):
         res.functions.add(f.key)
         key = f"{f.key}:chain-else-raises"
         res.ob(key)
+        sem = semantic(modname, q)
+        if sem is True:
+            continue
+        if isinstance(sem, str):
+            res.fail(key, f"{f.key}: the case analysis on `{var}` has no raising default: on an unknown input it {sem}", m.line(f.node))
+            continue
         chains = []
         for n in walk_no_nested(f.node):
             if isinstance(n, ast.If) and var in {x.id for x in ast.walk(n.test) if isinstance(x, ast.Name)}:
